@@ -153,7 +153,7 @@ theorem send_dist_last (E : Env) (at_ : Nat) (k : Kind) (hT : Tame E at_ k) (pay
     rw [blockAck_queued _ _ (s.srv.sseq + 1) (E.blkOf s.srv.k) (by rfl), ackResponse_ack]
     have he : s.srv.sseq + 1 = s.cl.seqno + 1 := by omega
     simp only [ne_eq, he, not_true_eq_false, if_false]
-    refine ⟨by simp, ⟨by simp, ?_, ⟨tk1, tk2⟩, h.srvSize, by simp⟩, by simp⟩
+    refine ⟨by simp, ⟨by simp, ?_, ⟨tk1, tk2⟩, h.srvSize, by simp, by simp⟩, by simp⟩
     have hdata := h.data
     have h0 : List.drop s.srv.sseq s.cl.currentBlock = [] := List.drop_eq_nil_of_le (by omega)
     simp only [itemsData, ht, h0, List.flatten_nil, List.append_nil] at hdata
@@ -174,12 +174,13 @@ theorem run_done_pending (E : Env) (payload : Bytes) : ∀ (fuel : Nat) (s : Sys
       cases x with
       | endRetx =>
         simp only [run] at h ⊢
-        exact ih _ t ⟨hd.phase, hd.buf, hd.last, hd.srvSize, hd.queue⟩ hp ht hok h
+        exact ih _ t ⟨hd.phase, hd.buf, hd.last, hd.srvSize, hd.queue, hd.done⟩ hp ht hok h
       | write b r =>
         exfalso
         obtain ⟨h1, -⟩ := hok
         simp only [itemsData, List.append_eq_nil_iff] at ht
         rw [ht.1] at h1; simp at h1
+      | feed rem offs => exact absurd hok (by simp [TodoOK])
 
 /-- the write phase under a fatal response disturbance: a normal return still means that every byte
     is at the server and acknowledged -/
@@ -222,6 +223,7 @@ theorem run_safe_dist (E : Env) (at_ : Nat) (k : Kind) (hT : Tame E at_ k) (payl
           · simp only at he hi hs1 hp1; subst he
             simp only [List.nil_append] at h ⊢
             exact ih s1 t hi hs1 hp1 h
+      | feed rem offs => exact absurd hinv.todoOK (by simp [TodoOK])
 
 
 theorem scs_mask : ∀ (y : Fin 32) (n : Fin 8), (y.val ||| (n.val <<< 5)) &&& 0xE0 = n.val <<< 5 ∧
@@ -321,7 +323,7 @@ theorem init_dist (E : Env) (at_ : Nat) (k : Kind) (hT : Tame E at_ k) (payload 
     cases crcReq <;> cases cap <;>
       simp [readResponse, classify, RESPONSE_ABORTED, RESPONSE_BLOCK_DOWNLOAD, hmux, CRC_SUPPORTED] at h <;>
       (subst h
-       refine ⟨⟨rfl, rfl, rfl, rfl, by simp; omega, by simp; omega, by simp, ?_, ?_, rfl, rfl, by simp, hck.2, rfl, ?_⟩, rfl, rfl⟩
+       refine ⟨⟨rfl, rfl, rfl, rfl, by simp; omega, by simp; omega, by simp, ?_, ?_, rfl, Or.inl rfl, by simp, hck.2, rfl, ?_, rfl⟩, rfl, rfl⟩
        · simp [chunks, hck.1]
        · simp [chunks, hck.1]
        · simp only [chunks, hck.1]; intro h0; rw [h0] at h1; simp at h1)
@@ -359,7 +361,8 @@ theorem read_bit0 (E : Env) (k : Kind) (hk : Fatal k) (ht : E.srvTimeout = false
 theorem close_dist (E : Env) (at_ : Nat) (k : Kind) (hT : Tame E at_ k) (payload : Bytes) (s : Sys)
     (hd : DoneInv payload s) (hp : s.pending = []) (h : (close E s).2 = .ok) :
     (close E s).1.srv.committed = some payload := by
-  unfold close at h ⊢
+  rw [close_done E s hd.done] at h ⊢
+  unfold closeEnd at h ⊢
   simp only [requestResponse, MAX_RETRIES, rrLoop] at h ⊢
   rw [sendReq_dist E at_ k hT _ _ (by simpa using hp), close_req,
     fin_end E.blkOf s.srv hd.phase s.cl.lastBytesSent hd.last _ _ payload hd.buf hd.srvSize] at h ⊢
